@@ -73,6 +73,31 @@ theorem ofBits_eq (f : Fmt) (hp : 1 ≤ f.p) (he : 1 ≤ f.ebits) (neg : Bool) (
   · simp [h0]
   · simp [h0]
 
+theorem bits_of_num_ne_zero (f : Fmt) {x : Q} (h0 : x.num ≠ 0) :
+    bits f x = (rndPos f x.num.natAbs x.den).bind fun me =>
+        (let sign := if x.num < 0 then 2 ^ (f.ebits + f.p - 1) else 0
+         if me.1 == 0 then some 0
+         else if me.1 < 2 ^ (f.p - 1) then some (sign + me.1)
+         else
+           let field : Int := me.2 + ((f.p : Int) - 1) + (2 ^ (f.ebits - 1) - 1 : Nat)
+           some (sign + field.toNat * 2 ^ (f.p - 1) + (me.1 - 2 ^ (f.p - 1)))) := by
+  unfold bits
+  have : (x.num == 0) = false := by simpa using h0
+  rw [this]
+  simp only [Bool.false_eq_true, if_false]
+  cases rndPos f x.num.natAbs x.den with
+  | none => rfl
+  | some me => rfl
+
+theorem ofBits_zero (f : Fmt) (hp : 1 ≤ f.p) (he : 1 ≤ f.ebits) : ofBits f 0 = some ⟨0, 1⟩ := by
+  have hT : 0 < 2 ^ (f.p - 1) := Nat.two_pow_pos _
+  have h2 : 2 ≤ 2 ^ f.ebits := by
+    calc 2 = 2 ^ 1 := rfl
+      _ ≤ 2 ^ f.ebits := Nat.pow_le_pow_right (by decide) he
+  have := ofBits_eq f hp he false 0 0 hT (by omega)
+  simp only [Bool.false_eq_true, if_false, Nat.zero_mul, Nat.add_zero, if_true] at this
+  rw [this, ofME_zero]
+
 /-- decoding the bit pattern of (the rounding of) `x` gives the rounding of `x` -/
 theorem ofBits_bits (f : Fmt) (ieee : f.IEEE) (x : Q) (hd : 0 < x.den) : (bits f x).bind (ofBits f) = rnd f x := by
   have wf := ieee.wf
@@ -87,23 +112,9 @@ theorem ofBits_bits (f : Fmt) (ieee : f.IEEE) (x : Q) (hd : 0 < x.den) : (bits f
     have : bits f x = some 0 := by simp [bits, h0]
     rw [this]
     simp only [Option.bind_some]
-    have := ofBits_eq f hp (by have := ieee.ebits_ge; omega) false 0 0 hT (by omega)
-    simp only [Bool.false_eq_true, if_false, Nat.zero_mul, Nat.add_zero, if_true] at this
-    rw [this, ofME_zero]
+    exact ofBits_zero f hp (by have := ieee.ebits_ge; omega)
   · rw [rnd_of_num_ne_zero f h0]
-    have hb : bits f x = (rndPos f x.num.natAbs x.den).bind fun me =>
-        (let sign := if x.num < 0 then 2 ^ (f.ebits + f.p - 1) else 0
-         if me.1 < 2 ^ (f.p - 1) then some (sign + me.1)
-         else
-           let field : Int := me.2 + ((f.p : Int) - 1) + (2 ^ (f.ebits - 1) - 1 : Nat)
-           some (sign + field.toNat * 2 ^ (f.p - 1) + (me.1 - 2 ^ (f.p - 1)))) := by
-      unfold bits
-      have : (x.num == 0) = false := by simpa using h0
-      rw [this]
-      simp only [Bool.false_eq_true, if_false]
-      cases rndPos f x.num.natAbs x.den with
-      | none => rfl
-      | some me => rfl
+    have hb := bits_of_num_ne_zero f h0
     rw [hb]
     cases hr : rndPos f x.num.natAbs x.den with
     | none => rfl
@@ -114,6 +125,12 @@ theorem ofBits_bits (f : Fmt) (ieee : f.IEEE) (x : Q) (hd : 0 < x.den) : (bits f
       have hsg : (if x.num < 0 then 2 ^ (f.ebits + f.p - 1) else 0) =
           (if decide (x.num < 0) = true then 2 ^ (f.ebits + f.p - 1) else 0) := by simp
       rw [hsg]
+      by_cases hm0 : m = 0
+      · subst hm0
+        simp only [beq_self_eq_true, if_true, Option.bind_some]
+        rw [ofBits_zero f hp (by have := ieee.ebits_ge; omega), ofME_zero]
+      have hm0' : (m == 0) = false := by simpa using hm0
+      simp only [hm0', Bool.false_eq_true, if_false]
       by_cases hsub : m < 2 ^ (f.p - 1)
       · have he : e = f.emin := by
           rcases hnorm with h1 | h1
@@ -201,25 +218,8 @@ theorem rndPos_idem (f : Fmt) (hp : 1 ≤ f.p) {a b a' b' m : Nat} {e : Int} (ha
   obtain ⟨rfl, rfl⟩ := pair_unique f hp hm hm2 he he2 hn hn2 this
   exact h2
 
-theorem bits_of_num_ne_zero (f : Fmt) {x : Q} (h0 : x.num ≠ 0) :
-    bits f x = (rndPos f x.num.natAbs x.den).bind fun me =>
-        (let sign := if x.num < 0 then 2 ^ (f.ebits + f.p - 1) else 0
-         if me.1 < 2 ^ (f.p - 1) then some (sign + me.1)
-         else
-           let field : Int := me.2 + ((f.p : Int) - 1) + (2 ^ (f.ebits - 1) - 1 : Nat)
-           some (sign + field.toNat * 2 ^ (f.p - 1) + (me.1 - 2 ^ (f.p - 1)))) := by
-  unfold bits
-  have : (x.num == 0) = false := by simpa using h0
-  rw [this]
-  simp only [Bool.false_eq_true, if_false]
-  cases rndPos f x.num.natAbs x.den with
-  | none => rfl
-  | some me => rfl
-
-/-- the bit pattern of the rounded value is the bit pattern computed from `x` itself, except that a negative `x` that
-underflows to zero gets the pattern of `-0` from `bits f x` but `0` from `bits f (rnd f x)` -/
-theorem bits_rnd (f : Fmt) (wf : f.WF) {x y : Q} (hd : 0 < x.den) (h : rnd f x = some y) (hz : x.num < 0 → y.num ≠ 0) :
-    bits f y = bits f x := by
+/-- the bit pattern of the rounded value is the bit pattern computed from `x` itself -/
+theorem bits_rnd (f : Fmt) (wf : f.WF) {x y : Q} (hd : 0 < x.den) (h : rnd f x = some y) : bits f y = bits f x := by
   have hp := wf.p_pos
   by_cases h0 : x.num = 0
   · rw [rnd_of_num_eq_zero f h0] at h
@@ -231,11 +231,9 @@ theorem bits_rnd (f : Fmt) (wf : f.WF) {x y : Q} (hd : 0 < x.den) (h : rnd f x =
     rw [← hy] at hc hv hs hzero
     rcases Nat.eq_zero_or_pos m with hm | hm
     · have hy0 := hzero.mpr hm
-      have hx : ¬ (x.num < 0) := fun c => hz c hy0
       rw [bits_of_num_ne_zero f h0, hr]
       subst hm
-      have hT : 0 < 2 ^ (f.p - 1) := Nat.two_pow_pos _
-      simp [bits, hy0, hx, hT]
+      simp [bits, hy0]
     · have hy0 : y.num ≠ 0 := fun c => by have := hzero.mp c; omega
       have hsy : (y.num < 0) = (x.num < 0) := by
         apply propext; rw [hs]; simp [hm]
